@@ -435,3 +435,163 @@ func ruleSingleRunnerRegistry(c *an.Ctx, o *an.O) {
 		o.Fail(c.P.Pos(n.Obj().Pos()), "conn keeps rerunners in %d fields (%s): ids of subscriptions and mutations no longer share one registry, so a message reusing a live id is not rejected as duplicate and the shared close path ends a request the client did not end", len(regs), strings.Join(regs, ", "))
 	}
 }
+
+// rulePtrParserAlwaysSets (C18): once the inner parser of a pointer argument
+// accepted the value, the destination is set to the new pointer on every path -
+// a sent zero value (false, 0, "") is still a sent value.
+func rulePtrParserAlwaysSets(c *an.Ctx, o *an.O) {
+	outer := c.NeedFunc("graphql/schemabuilder", "wrapPtrParser")
+	n := 0
+	for _, fn := range an.WithAnons(outer) {
+		if fn == outer || len(fn.Params) < 2 {
+			continue
+		}
+		dest := fn.Params[len(fn.Params)-1]
+		var sets []ssa.Instruction
+		var inner []ssa.Instruction
+		an.Instrs(fn, func(i ssa.Instruction) {
+			cc := an.CallOf(i)
+			if cc == nil {
+				return
+			}
+			if f := an.CalleeFunc(cc); f != nil && f.Name() == "Set" && len(cc.Args) == 2 && cc.Args[0] == ssa.Value(dest) {
+				sets = append(sets, i)
+				return
+			}
+			if !cc.IsInvoke() && cc.StaticCallee() == nil && an.IsFieldAccess(cc.Value, "argParser", "FromJSON") {
+				inner = append(inner, i)
+			}
+		})
+		if len(inner) == 0 {
+			continue
+		}
+		n++
+		o.Site(inner[0])
+		if len(sets) == 0 {
+			o.FailAt(inner[0], "the pointer parser never stores the parsed value in its destination")
+			continue
+		}
+		exits := an.Exits(fn, false)
+		for _, call := range inner {
+			for _, e := range an.ErrResult(call.(ssa.Value)) {
+				for _, nt := range an.NilTests(fn, e) {
+					start := nt.NilSucc.Instrs[0]
+					isSet := false
+					for _, s := range sets {
+						if s == start {
+							isSet = true
+						}
+					}
+					if isSet {
+						continue
+					}
+					if bad := an.ReachableAvoiding(fn, start, an.NewBlocker(sets...), exits); bad != nil {
+						o.FailAt(bad, "after the inner parser accepted the value the pointer parser can return without setting its destination: a sent value (for instance an explicit false, 0 or \"\") reaches the resolver as nil, as if it had been left out")
+					}
+				}
+			}
+		}
+	}
+	if n == 0 {
+		o.Fail(c.P.Pos(outer.Pos()), "wrapPtrParser: cannot find the closure that calls the inner parser")
+	}
+}
+
+// ruleNonNullResultTable (C14): the field-function adapter turns a nil pointer
+// returned for a NonNull field into an error, whatever the wrapped type is.
+// Evaluated with BoolSim under (return type is NonNull, result is a pointer,
+// result is nil, no error returned): no success return may be reached.
+func ruleNonNullResultTable(c *an.Ctx, o *an.O) {
+	fn := c.NeedFunc("graphql/schemabuilder", "(*funcContext).extractResultAndErr")
+	counts := map[string]int{}
+	sim := &an.BoolSim{Fn: fn, Atom: func(v ssa.Value) (bool, bool) {
+		switch x := v.(type) {
+		case *ssa.Extract:
+			if ta, ok := x.Tuple.(*ssa.TypeAssert); ok && ta.CommaOk && x.Index == 1 && strings.HasSuffix(ta.AssertedType.String(), "graphql.NonNull") {
+				counts["nonnull"]++
+				return true, true
+			}
+		case *ssa.Call:
+			if f := an.CalleeFunc(&x.Call); f != nil && f.Name() == "IsNil" && f.Pkg() != nil && f.Pkg().Path() == "reflect" {
+				counts["isnil"]++
+				return true, true
+			}
+		case *ssa.BinOp:
+			if x.Op == token.EQL || x.Op == token.NEQ {
+				if call, ok := x.X.(*ssa.Call); ok {
+					if f := an.CalleeFunc(&call.Call); f != nil && f.Name() == "Kind" && f.Pkg() != nil && f.Pkg().Path() == "reflect" {
+						if n, ok := an.ConstInt(x.Y); ok && n == 22 { // reflect.Ptr
+							counts["kind"]++
+							return x.Op == token.EQL, true
+						}
+					}
+				}
+			}
+		}
+		return false, false
+	}}
+	reached := sim.Run()
+	o.SitePos(c.P.Pos(fn.Pos()))
+	if counts["nonnull"] == 0 || counts["isnil"] == 0 || counts["kind"] == 0 {
+		o.Fail(c.P.Pos(fn.Pos()), "extractResultAndErr: the non-null guard (return type is NonNull, result is a nil pointer) was not recognised (NonNull test: %d, Kind()==Ptr: %d, IsNil: %d)", counts["nonnull"], counts["kind"], counts["isnil"])
+		return
+	}
+	for _, e := range an.Exits(fn, false) {
+		ret := e.(*ssa.Return)
+		if !reached[ret.Block()] || len(ret.Results) != 2 {
+			continue
+		}
+		o.Site(e)
+		if isConstNil(ret.Results[1]) {
+			o.FailAt(e, "a field function registered as NonNull that returns a nil pointer (and no error) can be delivered as a value: the response carries null where the schema advertises a non-null type (the guard depends on more than 'NonNull and nil pointer')")
+		}
+	}
+}
+
+// ruleMergedTypeRefIsBuilt (C09): every successful result of mergeTypeRefs is
+// a reference built here or the result of the recursive merge - never one of
+// the two inputs handed back unmerged (which would skip the nullability rule
+// and the kind comparison for that level).
+func ruleMergedTypeRefIsBuilt(c *an.Ctx, o *an.O) {
+	fn := c.NeedFunc(fed, "mergeTypeRefs")
+	var okVal func(v ssa.Value, seen map[ssa.Value]bool) (bool, ssa.Value)
+	okVal = func(v ssa.Value, seen map[ssa.Value]bool) (bool, ssa.Value) {
+		if seen[v] {
+			return true, nil
+		}
+		seen[v] = true
+		switch x := v.(type) {
+		case *ssa.Alloc:
+			return true, nil
+		case *ssa.Const:
+			return x.IsNil(), v
+		case *ssa.Phi:
+			for _, e := range x.Edges {
+				if ok, bad := okVal(e, seen); !ok {
+					return false, bad
+				}
+			}
+			return true, nil
+		case *ssa.Extract:
+			if call, ok := x.Tuple.(*ssa.Call); ok && x.Index == 0 && call.Call.StaticCallee() != nil && call.Call.StaticCallee().Name() == fn.Name() {
+				return true, nil
+			}
+		}
+		return false, v
+	}
+	n := 0
+	for _, e := range an.Exits(fn, false) {
+		ret := e.(*ssa.Return)
+		if len(ret.Results) != 2 || !isConstNil(ret.Results[1]) {
+			continue
+		}
+		n++
+		o.Site(e)
+		if ok, bad := okVal(ret.Results[0], map[ssa.Value]bool{}); !ok {
+			o.FailAt(e, "mergeTypeRefs can return %s as the merged type: one side is handed back unmerged, so nullability (required if any side requires it / non-null only if both are) and the kind comparison are skipped for it and the result depends on which version sorts first", an.Short(an.Expr(bad), 60))
+		}
+	}
+	if n < 3 {
+		o.Fail(c.P.Pos(fn.Pos()), "mergeTypeRefs: expected at least three successful returns (non-null wrapper, named type, list), found %d", n)
+	}
+}
